@@ -1066,7 +1066,10 @@ class ModelGen:
                 self.count("stmt:assign")
             elif kind == "if":
                 others = [w for w in todo if w != v]
-                targets = [v] + ([self.eg.pick(others)] if others and r.random() < 0.4 else [])
+                r.shuffle(others)
+                targets = [v] + (others[:r.randint(1, 2)] if others and r.random() < 0.5 else [])
+                # branches may assign the variables in different orders when no right-hand side reads one of them
+                permuted = len(targets) >= 2 and r.random() < 0.5
                 csc = sc.copy()
                 csc.atoms["gen"] = [a for a in assigned if a not in targets] or ["1"]
                 nb = 1 if r.random() < 0.6 else 2
@@ -1080,20 +1083,27 @@ class ModelGen:
                         s += "  else\n"
                     bsc = sc.copy()
                     known = list(assigned)
-                    for t in targets:
+                    order = list(targets)
+                    if permuted:
+                        if b > 0:
+                            r.shuffle(order)
+                            if b == nb and order == targets:
+                                order.reverse()
+                        known = [a for a in assigned if a not in targets] or ["1"]
+                    for t in order:
                         bsc.atoms["gen"] = list(known)
                         s += "    %s := %s;\n" % (t, self.eg.gen(bsc, 2))
-                        if t not in known:
+                        if t not in known and not permuted:
                             known.append(t)
                 s += "  end if;"
                 lines.append(s)
-                self.count("stmt:if-%d" % nb)
+                self.count("stmt:if-%d%s" % (nb, "-permuted" if permuted else ""))
                 for t in targets:
                     if t not in assigned:
                         assigned.append(t)
             else:
                 idx = self.fresh("k")
-                hi = r.randint(1, 3)
+                hi = r.randint(2, 3) if r.random() < 0.8 else 1
                 bsc = sc.copy()
                 bsc.atoms["gen"] = list(assigned) + [idx]
                 rtxt = "1:%d" % hi
@@ -1104,7 +1114,7 @@ class ModelGen:
                     self.count("stmt:for-stepped")
                 s = "  for %s in %s loop\n    %s := %s;\n" % (idx, rtxt, v, binop("+", mk(v), self.eg.gen(bsc, 1)))
                 others = [w for w in assigned if w in todo and w != v]
-                if others and r.random() < 0.4:
+                if others and r.random() < 0.6:
                     w = self.eg.pick(others)
                     s += "    %s := %s;\n" % (w, self.eg.gen(bsc, 1))
                 s += "  end for;"
@@ -1155,6 +1165,7 @@ class ModelGen:
         has_n = r.random() < 0.6
         if has_n:
             declare("parameter", "Integer", "n0", "int:%d" % nval, (), str(nval))
+            sc.atoms["gen"] += ["n0", "n0"]     # also used as an ordinary value
         for i in range(r.randint(2 if self.bilinear_attr else 1, 3)):
             c = self.eg.pick(classes if not (self.bilinear_attr and i < 2) else ["gen", "pow2", "sq", "one"])
             declare("parameter", "Real", "p%d" % i, c, (), self.eg.pick([x for x in LITS[c] if x != "0"] or LITS[c]))
@@ -1234,6 +1245,14 @@ class ModelGen:
                 for hi in range(lo + 1, L + 1):
                     if hi - lo + 1 < L:
                         sc.vecs.setdefault(hi - lo + 1, []).append("v%d[%d:%d]" % (i, lo, hi))
+            k1 = r.randint(1, L)
+            sc.vecs.setdefault(1, []).append("v%d[%d:%d]" % (i, k1, k1))      # one-element slices
+            if has_n and nval <= L:
+                sc.vecs.setdefault(1, []).append("v%d[n0:n0]" % i)
+                if nval >= 2:
+                    sc.vecs.setdefault(nval - 1, []).append("v%d[1:n0-1]" % i)
+                    if nval - 1 < L:
+                        sc.vecs.setdefault(L - nval + 1, []).append("v%d[n0:%d]" % (i, L))
             if L >= 3:      # stepped subscript ranges start:step:stop (the step need not divide the span)
                 for st in (2, 3):
                     if st + 1 > L:
@@ -1241,14 +1260,17 @@ class ModelGen:
                     hi = r.randint(st + 1, L)
                     sc.vecs.setdefault(len(range(1, hi + 1, st)), []).append("v%d[1:%d:%d]" % (i, st, hi))
         mats = []
-        if r.random() < 0.3:
-            R, C = r.randint(2, 3), r.randint(2, 3)
-            declare("", "Real", "m0", "gen", (R, C))
-            mats.append(("m0", R, C))
-            for _ in range(2):
-                sc.atoms["gen"].append("m0[%d,%d]" % (r.randint(1, R), r.randint(1, C)))
-            for c_ in range(1, C + 1):
-                sc.vecs.setdefault(R, []).append("m0[:,%d]" % c_)
+        if r.random() < 0.4:
+            R = r.randint(2, 3)
+            C = R if r.random() < 0.5 else r.randint(2, 3)       # square matrices half of the time
+            for k in range(r.randint(1, 2)):
+                name = "m%d" % k
+                declare("", "Real", name, self.eg.pick(["gen", "pow2"]), (R, C))
+                mats.append((name, R, C))
+                for _ in range(2):
+                    sc.atoms["gen"].append("%s[%d,%d]" % (name, r.randint(1, R), r.randint(1, C)))
+                for c_ in range(1, C + 1):
+                    sc.vecs.setdefault(R, []).append("%s[:,%d]" % (name, c_))
             feats.add("matrix")
 
         eqs, ieqs = [], []
@@ -1304,6 +1326,19 @@ class ModelGen:
                 eqs.append("  %s = %s;" % (self.vec_lhs(sc, v, L), self.vec(sc, L, 2)))
                 feats.add("vector-equation")
                 self.count("eq:vector")
+        # ---- a slice on the left (also one-element slices v[a:a], v[1:n0-1])
+        if sc.vecs and r.random() < 0.5:
+            L = self.eg.pick(sorted(sc.vecs) + [1])
+            if sc.vecs.get(L):
+                eqs.append("  %s = %s;" % (self.eg.pick(sc.vecs[L]), self.vec(sc, L, 2)))
+                self.count("eq:slice-lhs-%d" % L)
+        # ---- whole-matrix equations (element-wise; both sides of the same shape, square or not)
+        for (mname, R, C) in mats:
+            if r.random() < 0.7:
+                lhs = "der(%s)" % mname if r.random() < 0.25 else mname
+                eqs.append("  %s = %s;" % (lhs, self.mat(sc, [m[0] for m in mats], 2)))
+                feats.add("matrix-equation")
+                self.count("eq:matrix-%s" % ("square" if R == C else "rect"))
         if sc.vecs and r.random() < 0.4:
             L = self.eg.pick(sorted(sc.vecs))
             tgt = self.eg.pick(algs)
@@ -1358,6 +1393,22 @@ class ModelGen:
         if k == "neg":
             return neg(V())
         return binop("/", V(), self.eg.real(sc, "pow2", 0))
+
+    def mat(self, sc, names, d):
+        """Element-wise matrix expression over matrices of one shape."""
+        r = self.rng
+        if d <= 0 or r.random() < 0.3:
+            return mk(self.eg.pick(names))
+        M = lambda: self.mat(sc, names, d - 1)
+        k = self.eg.wchoice([("+", 3), ("-", 3), ("scale", 3), (".*", 2), ("neg", 1), ("div", 1)])
+        self.count("mat:" + k)
+        if k in ("+", "-", ".*"):
+            return binop(k, M(), M())
+        if k == "scale":
+            return binop("*", self.eg.gen(sc, 1), M())
+        if k == "neg":
+            return neg(M())
+        return binop("/", M(), self.eg.real(sc, "pow2", 0))
 
     def for_equation(self, sc, arrays, mats, nval):
         r = self.rng
@@ -1448,7 +1499,10 @@ class ModelGen:
             for d in dims:
                 n *= d
             if cls.startswith("int:"):
-                pt[name] = [F(int(cls[4:]))]     # Integer parameters keep their declared value
+                # dimensions / loop bounds use the DECLARED value (get_integer); as a number in an equation an
+                # Integer parameter is an ordinary input of the residual functions: any value may be passed
+                d_ = int(cls[4:])
+                pt[name] = [F(self.eg.pick([d_, d_ + 1, d_ - 1, 1, 5, d_ + 2]))]
                 continue
             pt[name] = [self.eg.pick(VALUES[cls]) for _ in range(n)]
             pt["der(%s)" % name] = [self.eg.pick(VALUES["gen"]) for _ in range(n)]
